@@ -46,30 +46,32 @@ type loopVar struct {
 }
 
 type Contract struct {
-	Pkg      string // import path
-	Dir      string
-	Header   string // func header as written
-	Key      string // fn.String() of the target
-	Inline   bool
-	Pure     bool // result is a function of the (scalar) arguments: callers see UF(args)
-	Trusted  bool // assumed contract: body is not verified (reported as such)
-	Requires []*Clause
-	Assumes  []*Clause // modelling assumptions, assumed at entry (also when inlined); listed in the evidence
-	Ensures  []*Clause
-	Modifies []*Clause
-	Loops    map[int]*LoopSpec
-	Frame    []string // props for frame obligations; nil = no frame obligations
-	FrameOn  bool
-	decl     *ast.FuncDecl
-	recvName string
-	params   string // rendered "(a T, b U)" pieces
-	paramN   []string
-	results  string
-	resultN  []string
-	Line     int
-	File     string
-	id       int
-	captures []loopVar // closures: captured variables usable in clauses (by value)
+	Pkg           string // import path
+	Dir           string
+	Header        string // func header as written
+	Key           string // fn.String() of the target
+	Inline        bool
+	Pure          bool // result is a function of the (scalar) arguments: callers see UF(args)
+	Trusted       bool // assumed contract: body is not verified (reported as such)
+	Requires      []*Clause
+	OnStore       []*Clause // assertions checked before every map update m[key] = val (params: m, key, val)
+	onStoreParams string
+	Assumes       []*Clause // modelling assumptions, assumed at entry (also when inlined); listed in the evidence
+	Ensures       []*Clause
+	Modifies      []*Clause
+	Loops         map[int]*LoopSpec
+	Frame         []string // props for frame obligations; nil = no frame obligations
+	FrameOn       bool
+	decl          *ast.FuncDecl
+	recvName      string
+	params        string // rendered "(a T, b U)" pieces
+	paramN        []string
+	results       string
+	resultN       []string
+	Line          int
+	File          string
+	id            int
+	captures      []loopVar // closures: captured variables usable in clauses (by value)
 }
 
 type ContractFile struct {
@@ -164,6 +166,30 @@ func parseContractFile(path, pkgPath string) (*ContractFile, error) {
 			cur = c
 			curLoop = nil
 			curClause = nil
+		case kw == "onstore":
+			// onstore (m T, key K, val V)  -- declares the parameter list
+			if cur == nil {
+				return nil, fmt.Errorf("%s:%d: onstore outside contract", path, ln)
+			}
+			cur.onStoreParams = strings.TrimSuffix(strings.TrimPrefix(strings.TrimSpace(rest), "("), ")")
+			curClause = nil
+			curLoop = nil
+		case kw == "storeassert":
+			if cur == nil || cur.onStoreParams == "" {
+				return nil, fmt.Errorf("%s:%d: storeassert without onstore", path, ln)
+			}
+			cl := &Clause{Kind: "storeassert", Line: ln}
+			if m := propRe.FindStringSubmatch(rest); m != nil {
+				cl.Props = strings.Fields(strings.ReplaceAll(m[1], ",", " "))
+				rest = rest[len(m[0]):]
+			}
+			if m := labelRe.FindStringSubmatch(rest); m != nil {
+				cl.Label = m[1]
+				rest = rest[len(m[0]):]
+			}
+			cl.Expr = rest
+			cur.OnStore = append(cur.OnStore, cl)
+			curClause = cl
 		case kw == "requires" || kw == "ensures" || kw == "invariant" || kw == "modifies" || kw == "assume":
 			if cur == nil {
 				return nil, fmt.Errorf("%s:%d: clause outside a function contract", path, ln)
@@ -406,6 +432,7 @@ func isNilFunc(f any) bool { return false }
 func mergoOverride[T any](dst, src T) T { return dst }
 func deepEq[T any](a, b T) bool { return false }
 func forallKeys[M any](m M, f func(k string) bool) bool { return true }
+func forallStr(f func(k string) bool) bool { return true }
 func dynType(x any) string { return "" }
 `
 
@@ -469,6 +496,10 @@ func (cf *ContractFile) stub() string {
 			cl.StubFn = clauseFnName(c, "asm", -1, i)
 			fmt.Fprintf(&b, "\nfunc %s(%s) bool { return %s }\n", cl.StubFn, c.params, cl.Expr)
 		}
+		for i, cl := range c.OnStore {
+			cl.StubFn = clauseFnName(c, "ons", -1, i)
+			fmt.Fprintf(&b, "\nfunc %s(%s) bool { return %s }\n", cl.StubFn, join(c.params, c.onStoreParams), cl.Expr)
+		}
 		for i, cl := range c.Ensures {
 			cl.StubFn = clauseFnName(c, "ens", -1, i)
 			fmt.Fprintf(&b, "\nfunc %s(%s) bool { return %s }\n", cl.StubFn, join(c.params, c.results), cl.Expr)
@@ -520,7 +551,10 @@ func (cf *ContractFile) allText() string {
 		b.WriteString(s + "\n")
 	}
 	for _, c := range cf.Cs {
-		nstubs := len(c.Requires) + len(c.Ensures) + len(c.Modifies) + len(c.Assumes)
+		nstubs := len(c.Requires) + len(c.Ensures) + len(c.Modifies) + len(c.Assumes) + len(c.OnStore)
+		for _, cl := range c.OnStore {
+			b.WriteString(cl.Expr + " " + c.onStoreParams + "\n")
+		}
 		for _, cl := range c.Assumes {
 			b.WriteString(cl.Expr + "\n")
 		}
@@ -590,7 +624,7 @@ var ghostNames = map[string]bool{
 	"gvcModLoc": true, "gvcModGhost": true, "gvcModFlag": true, "gvcModMap": true, "gvcModGlob": true,
 	"fsContent": true, "fsExists": true, "fsReadable": true, "fsIsDir": true, "fsMode": true, "fsSize": true, "fsMTime": true,
 	"fsLink": true, "fsIsLink": true, "ufStr": true, "ufInt": true, "ufBool": true,
-	"errIs": true, "errAsSigningFailure": true, "errMsg": true, "mapHas": true, "bit": true, "isNilFunc": true, "dynType": true, "mergoOverride": true, "deepEq": true, "forallKeys": true,
+	"errIs": true, "errAsSigningFailure": true, "errMsg": true, "mapHas": true, "bit": true, "isNilFunc": true, "dynType": true, "mergoOverride": true, "deepEq": true, "forallKeys": true, "forallStr": true,
 }
 
 func ghostBuiltin(fn *ssa.Function) string {
@@ -765,6 +799,19 @@ func (e *Engine) ghostCall(c *CallCtx, g string, fn *ssa.Function) *Term {
 	case "deepEq":
 		T := fn.Signature.Params().At(0).Type()
 		return e.deepEq(st, T, c.args[0], c.args[1])
+	case "forallStr":
+		if c.args[0].Op != "int" {
+			panic("forallStr: closure must be a literal")
+		}
+		cl := e.closureOf(c.args[0].IVal.Int64())
+		k := BoundVar(StringS)
+		var old *State
+		if c.fr != nil {
+			old = c.fr.oldSt
+		}
+		allOld := c.fr != nil && c.fr.oldSt != nil && (c.fr.allOld || c.fr.oldIns[c.instr])
+		body, _, _ := e.execFunction(cl.fn, []*Term{k}, cl.bindings, c.rd.clone(), c.pc, c.fr, "", old, allOld)
+		return Forall([]*Term{k}, body)
 	case "forallKeys":
 		mt, ok := fn.Signature.Params().At(0).Type().Underlying().(*types.Map)
 		if !ok {
@@ -1072,7 +1119,6 @@ func (e *Engine) assumeInvariants(fr *Frame, li *loopInfo, ls *LoopSpec, st *Sta
 		e.assume(pc, g)
 	}
 }
-
 
 // replayClause renders an executable variant of an ensures clause for the
 // replay test: every parameter has a second, pre-state copy <name>_pre, and
